@@ -623,6 +623,19 @@ where
         }
     }
 
+    /// Verification hook: a transport without health channels (same as the test constructor).
+    /// Exists only with `--cfg d_engine_verif`.
+    #[cfg(d_engine_verif)]
+    pub fn verif_new(node_id: u32) -> Self {
+        Self {
+            my_id: node_id,
+            peer_appenders: Arc::new(DashMap::new()),
+            peer_failure_tx: None,
+            peer_success_tx: None,
+            _marker: PhantomData,
+        }
+    }
+
     /// Constructs a transport wired to peer-failure and peer-success channels.
     ///
     /// `peer_failure_tx` is fired when `stream_append_entries` fails (enables zombie detection).
